@@ -34,6 +34,21 @@ def _par_run_lines(exe, lines, timeout=3600, env=None, cwd=None, args=()):
 vlib.run_lines = _par_run_lines
 
 
+def _clean_stale_scratch():
+    """the driver removes /verif/.scratch/c19-<pid> at exit; remove the ones whose process died without doing so"""
+    import shutil
+    try:
+        for d in os.listdir(vlib.SCRATCH):
+            m = re.fullmatch(r"c19-(\d+)", d)
+            if m and not os.path.exists("/proc/" + m.group(1)):
+                shutil.rmtree(os.path.join(vlib.SCRATCH, d), ignore_errors=True)
+    except OSError:
+        pass
+
+
+_clean_stale_scratch()
+
+
 # ----------------------------------------------------------------------------------------------------------
 # rows
 
@@ -628,10 +643,11 @@ class C19(vlib.Spec):
         "failed_snapshot_removed", "failed_snapshot_unpins", "injected_fault_fails",
         "segment_snapshot_no_reopen", "deleted_segment_skipped", "closed_copy_recovers_as_source",
         "segment_snapshot_open", "shardOK_opens", "db_snapshot_opens", "db_failed_snapshot_removed",
-        "reachable_inv", "reachable_wf"]] + ["Banyan.Tie.C19." + t for t in ['copySegmentsTouchesNothing', 'dbErrorRemovesDst', 'dbStopsAtFirstError', 'dbUsesCopySegments', 'measureCurrentSnapshotIncRefUnderRLock', 'measureErrorRemovesDst', 'measureLinkErrorReturns', 'measureLoopSkipsMemParts', 'measureManifestAfterLinks', 'measureManifestNamedByEpoch', 'measureManifestNamesAllParts', 'measureNilSnapshotReturnsErrNoCurrentSnapshot', 'measureNoDiskPartsNoManifest', 'measurePartDirRemovedOnlyAtRefZeroAndRemovable', 'measurePinThenDeferUnpinBeforeLinks', 'segCloseIfIdleRequiresRefZero', 'segClosedHardLinksWithFilter', 'segClosedLinkedUnderLock', 'segDecRefDeletesAtLastRelease', 'segDeletedSkipped', 'segLockFirst', 'segOpenIteratesShardList', 'segOpenPinsWithoutReopen', 'segOpenSkipsEmptyShard', 'segSnapshotNeverReopens', 'streamCurrentSnapshotIncRefUnderRLock', 'streamErrorRemovesDst', 'streamLinkErrorReturns', 'streamLoopSkipsMemParts', 'streamManifestAfterLinks', 'streamManifestNamedByEpoch', 'streamManifestNamesAllParts', 'streamNilSnapshotReturnsErrNoCurrentSnapshot', 'streamNoDiskPartsNoManifest', 'streamPartDirRemovedOnlyAtRefZeroAndRemovable', 'streamPinThenDeferUnpinBeforeLinks', 'traceCurrentSnapshotIncRefUnderRLock', 'traceErrorRemovesDst', 'traceLinkErrorReturns', 'traceLoopSkipsMemParts', 'traceManifestAfterLinks', 'traceManifestNamedByEpoch', 'traceManifestNamesAllParts', 'traceNilSnapshotReturnsErrNoCurrentSnapshot', 'traceNoDiskPartsNoManifest', 'tracePartDirRemovedOnlyAtRefZeroAndRemovable', 'tracePinThenDeferUnpinBeforeLinks', 'closedExcludes_tie']]
+        "trace_snapshot_index_consistent", "trace_snapshot_legacy_counterexample",
+        "trace_snapshot_legacy_counterexample_flush", "reachable_inv", "reachable_wf"]] + ["Banyan.Tie.C19." + t for t in ['copySegmentsTouchesNothing', 'dbErrorRemovesDst', 'dbStopsAtFirstError', 'dbUsesCopySegments', 'measureCurrentSnapshotIncRefUnderRLock', 'measureErrorRemovesDst', 'measureLinkErrorReturns', 'measureLoopSkipsMemParts', 'measureManifestAfterLinks', 'measureManifestNamedByEpoch', 'measureManifestNamesAllParts', 'measureNilSnapshotReturnsErrNoCurrentSnapshot', 'measureNoDiskPartsNoManifest', 'measurePartDirRemovedOnlyAtRefZeroAndRemovable', 'measurePinThenDeferUnpinBeforeLinks', 'segCloseIfIdleRequiresRefZero', 'segClosedHardLinksWithFilter', 'segClosedLinkedUnderLock', 'segDecRefDeletesAtLastRelease', 'segDeletedSkipped', 'segLockFirst', 'segOpenIteratesShardList', 'segOpenPinsWithoutReopen', 'segOpenSkipsEmptyShard', 'segSnapshotNeverReopens', 'streamCurrentSnapshotIncRefUnderRLock', 'streamErrorRemovesDst', 'streamLinkErrorReturns', 'streamLoopSkipsMemParts', 'streamManifestAfterLinks', 'streamManifestNamedByEpoch', 'streamManifestNamesAllParts', 'streamNilSnapshotReturnsErrNoCurrentSnapshot', 'streamNoDiskPartsNoManifest', 'streamPartDirRemovedOnlyAtRefZeroAndRemovable', 'streamPinThenDeferUnpinBeforeLinks', 'traceCurrentSnapshotIncRefUnderRLock', 'traceErrorRemovesDst', 'traceLinkErrorReturns', 'traceLoopSkipsMemParts', 'traceManifestAfterLinks', 'traceManifestNamedByEpoch', 'traceManifestNamesAllParts', 'traceNilSnapshotReturnsErrNoCurrentSnapshot', 'traceNoDiskPartsNoManifest', 'tracePartDirRemovedOnlyAtRefZeroAndRemovable', 'tracePinThenDeferUnpinBeforeLinks', 'closedExcludes_tie']]
     go_driver = "c19"
     lean_driver = "C19"
-    counts = {"quick": 700, "thorough": 12000}
+    counts = {"quick": 500, "thorough": 8000}
     trusted_base = [
         "Lean 4.33.0 kernel",
         "correspondence check: Go driver hooks/banyand/internal/verifdrv/c19 (real measure tsTable + real storage.TSDB on "
@@ -650,9 +666,13 @@ class C19(vlib.Spec):
         "part directories are complete once published (flush/merge atomic at op level; crash states are C04)",
         "reference counts modelled by counting live snapshot objects; compared with the real partWrapper.ref / snapshot.ref "
         "at every observation point",
-        "stream and trace TakeFileSnapshot are tied by shape facts only (same step order); the dynamic tie runs measure",
+        "measure: table and database level; stream and trace: table level (real tsTable incl. element index / sidx); all "
+        "three engines additionally by shape facts",
+        "trace is modelled as the repaired procedure (fixes/F19): core pin and index links in one publication section",
     ]
-    rule = ("tbl: random histories of 3-16 ops over one real measure tsTable (b=introduce batch, f=flush, m=merge of 2-4 file "
+    rule = ("tbl/stb/ttb (measure 50% / stream 15% of table cases; trace 20% of all cases, 40% of them `ttbx` = "
+            "flush/merge placed between the core pin and the index pin): "
+            "random histories of 3-16 ops over one real measure tsTable (b=introduce batch, f=flush, m=merge of 2-4 file "
             "parts), ~28% snapshots; 55% of snapshots interleave 1-4 maintenance ops at the file-system calls of "
             "TakeFileSnapshot (after pin / between links / before manifest), 15-30% inject a hard-link failure. "
             "db: random histories of 4-20 ops over a real TSDB (2-3 daily segments x 2 shards): write/flush/merge, "
@@ -712,6 +732,7 @@ class C19(vlib.Spec):
     def extra(self, R, tier, rng):
         for k, v in sorted(STATS.items()):
             R.count(k, v)
+        _clean_stale_scratch()
 
     def shrink(self, line, still_fails):
         """drop operations one at a time while the *same kind* of oracle failure remains"""
